@@ -81,6 +81,8 @@ SNIPPETS = [
     "class Box:\n    def __init__(self, x):\n        self.x = x\n        self.log = []\n    def bump(self, k=1):\n        self.x += k\n        self.log.append(self.x)\n        return self\nb = Box(1)\nb.bump().bump(5)\nreturn b.x, b.log, hasattr(b, 'x'), hasattr(b, 'y')",
     "log = []\nclass Guard:\n    def __init__(self, name):\n        self.name = name\n    def __enter__(self):\n        log.append('in ' + self.name)\n        return self.name\n    def __exit__(self, t, v, tb):\n        log.append(('out', self.name, t is None))\n        return False\ndef f():\n    with Guard('a') as n:\n        log.append(n)\n        return 7\nr = f()\ntry:\n    with Guard('b'):\n        raise ValueError('x')\nexcept ValueError:\n    log.append('caught')\nreturn r, log",
     "class Swallow:\n    def __enter__(self):\n        return None\n    def __exit__(self, t, v, tb):\n        return t is not None\nwith Swallow():\n    raise KeyError('k')\nreturn 'after'",
+    "xs = [1, 2, 3, 4]\nreturn xs[:-1], xs[1:], xs[::2], 'abcd'[1:3], (1, 2, 3)[:2]",
+    "def f(a, b=0, **kw):\n    return a, b, kw\nd = dict(b=2, c=3)\nreturn f(1, **d), f(1, **{})",
     "def f(*args, **kw):\n    return args, kw\nreturn f(1, 2, k=3), f(*[4, 5], **{'z': 6})",
 ]
 
